@@ -48,6 +48,7 @@ type Report struct {
 	EndDetails map[string]int
 	Forks     int
 	Merged    int
+	ModelHits int
 	Steps     int64
 	Obligations map[string]map[string]int // assert id -> verdict -> count
 	ObTotal   int
@@ -91,9 +92,13 @@ func Explore(cfg Config) *Report {
 	}
 	var mu sync.Mutex
 	cond := sync.NewCond(&mu)
-	stack := [][]Decision{cfg.Replay}
+	type item struct {
+		prefix []Decision
+		model  smt.Model
+	}
+	stack := []item{{prefix: cfg.Replay}}
 	if cfg.Replay == nil {
-		stack = [][]Decision{{}}
+		stack = []item{{prefix: []Decision{}}}
 	}
 	busy := 0
 	nextID := 0
@@ -130,7 +135,8 @@ func Explore(cfg Config) *Report {
 					mu.Unlock()
 					break
 				}
-				prefix := stack[len(stack)-1]
+				it := stack[len(stack)-1]
+				prefix := it.prefix
 				stack = stack[:len(stack)-1]
 				busy++
 				id := nextID
@@ -139,6 +145,7 @@ func Explore(cfg Config) *Report {
 
 				ps := NewPathState(prefix, cfg.KnownKF)
 				ps.ID = id
+				ps.StartModel = it.model
 				if cfg.TimeoutFeasMs > 0 {
 					ps.TimeoutFeas = cfg.TimeoutFeasMs
 				}
@@ -170,6 +177,7 @@ func Explore(cfg Config) *Report {
 				}
 				rep.Forks += ps.Forks
 				rep.Merged += ps.Merged
+				rep.ModelHits += ps.ModelHits
 				rep.Steps += int64(in.steps)
 				rep.FeasUnknown += ps.Unknowns
 				rep.ObUnknown += ps.ObUnknown
@@ -223,7 +231,7 @@ func Explore(cfg Config) *Report {
 				if cfg.Replay == nil {
 					// push in reverse so that the first alternative is explored first
 					for i := len(ps.Pending) - 1; i >= 0; i-- {
-						stack = append(stack, ps.Pending[i])
+						stack = append(stack, item{ps.Pending[i], ps.PendingModels[i]})
 					}
 				}
 				if rep.Paths >= cfg.MaxPaths || (!cfg.Deadline.IsZero() && time.Now().After(cfg.Deadline)) {
